@@ -41,9 +41,16 @@ Special == <<
 Big == <<
    Coll("GeometryCollection", [j \in 1..70 |-> L(PtI[(j % Len(PtI)) + 1])]),
    Coll("FeatureCollection", [j \in 1..66 |-> IF j % 9 = 0 THEN F(Empties[1]) ELSE F(L(((j * 7) % NLf) + 1))]),
-   Coll("MultiPoint", [j \in 1..65 |-> L(PtI[(j % 3) + 1])])
+   Coll("MultiPoint", [j \in 1..65 |-> L(PtI[(j % 3) + 1])]),
+   \* exactly 64 non-empty children (the default threshold) among 70, and 63 among 70
+   Coll("GeometryCollection", [j \in 1..70 |-> IF j \in {3, 11, 29, 40, 58, 70} THEN Empties[((j % 4) + 1)] ELSE L(((j * 5) % NLf) + 1)]),
+   Coll("GeometryCollection", [j \in 1..70 |-> IF j \in {1, 3, 11, 29, 40, 58, 70} THEN Empties[((j % 4) + 1)] ELSE L(((j * 5) % NLf) + 1)])
 >>
-Univ == TLCEval(Atoms \o MapSeq(Atoms, F) \o MultiPts \o MultiLns \o MultiPgs \o Special \o GC2 \o Big)
+\* a nested collection FIRST, then a leaf (and the reverse): early-stop signals must cross the nesting boundary
+NestedFirst == MapSeq(Pairs(<<1, 2, 3, 4>>), LAMBDA p : Coll("GeometryCollection", <<MultiPts[p[1] * 5 + p[2]], L(PtI[p[2]])>>))
+               \o MapSeq(Pairs(<<1, 2, 3>>), LAMBDA p : Coll("GeometryCollection", <<Coll("GeometryCollection", <<L(PtI[p[1]]), L(PtI[p[2] + 1])>>), L(PgI[p[2]]), L(PtI[p[1] + 2])>>))
+               \o MapSeq(Pairs(<<1, 2, 3>>), LAMBDA p : Coll("FeatureCollection", <<F(Coll("MultiPoint", <<L(PtI[p[1]]), L(PtI[p[2] + 2])>>)), F(L(PtI[p[2]]))>>))
+Univ == TLCEval(Atoms \o MapSeq(Atoms, F) \o MultiPts \o MultiLns \o MultiPgs \o Special \o GC2 \o NestedFirst \o Big)
 NRel == Len(Univ) - Len(Big)                 \* objects that take part in relations
 NU == Len(Univ)
 NCore == TLCEval(Len(Atoms) * 2 + Len(MultiPts) + Len(MultiLns) + Len(MultiPgs) + Len(Special))   \* objects used as `a`
